@@ -59,7 +59,9 @@ func (c *c11World) drawRequest() *c11Req {
 			return c.reqWriteControlFam(3) // the second creation of the state file is the full one: STOP, then START again
 		}
 	}
-	switch k := simrt.Draw(38); {
+	switch k := simrt.Draw(41); {
+	case k >= 38:
+		return c.reqConfigure()
 	case k >= 36:
 		return c.reqMapUnload()
 	case k >= 34:
@@ -580,6 +582,9 @@ func (c *c11World) reqStart() *c11Req {
 		r.onOK = func() { c.noteStarted(c.main, c.nchanMain, false) }
 	case st != c11Down && simrt.Draw(2) == 0:
 		name = "TRIANGLESOURCE" // refused: a source is active
+	case simrt.Draw(3) == 0:
+		// sources without any device in this world: refused (nothing to read from), whatever was configured
+		name = []string{"ABACOSOURCE", "ROACHSOURCE"}[simrt.Draw(2)]
 	}
 	r.desc = name
 	r.do = func() error { return c.sc.Start(&name, &ok) }
